@@ -165,6 +165,14 @@ def handle (j : Json) : R Json := do
       match readBytes b cache w with
       | some (p, _) => pure (Json.mkObj [("ok", Json.bool true), ("pose", poseToJson p)])
       | none => pure failJ
+  | "version_class" =>
+    -- both version switches on float32 patterns `lo … hi` (inclusive): Python's (`versionClass`) and JavaScript's (`jsVersionClass`), one letter each per pattern
+    let lo ← getNat j "lo"
+    let hi ← getNat j "hi"
+    let name (c : VersionClass) : Char := match c with | .v00 => '0' | .v01 => '1' | .v02 => '2' | .other => 'x'
+    let pats := (List.range (hi + 1 - lo)).map fun i => UInt32.ofNat (lo + i)
+    pure (Json.mkObj [("ok", Json.bool true), ("py", Json.str (String.ofList (pats.map fun w => name (versionClass w)))),
+      ("js", Json.str (String.ofList (pats.map fun w => name (jsVersionClass w))))])
   | "js_parse" =>
     let b ← getHex j "hex"
     let cls := match (runBR rdHeaderRaw b 0) with
